@@ -1,6 +1,6 @@
 use proc_macro2::TokenStream;
 use quote::quote;
-use syn::{Error, FnArg, Pat};
+use syn::{ext::IdentExt, Error, FnArg, Pat};
 
 use super::{
     types::{ArgInfo, MethodAttrs},
@@ -17,7 +17,7 @@ pub(super) fn generate_chain_method(
     method_attrs: &MethodAttrs,
     crate_path: &TokenStream,
 ) -> Result<(TokenStream, TokenStream), Error> {
-    let method_name_str = method.sig.ident.to_string();
+    let method_name_str = method.sig.ident.unraw().to_string();
     let method_ident = method.sig.ident.clone();
     let method_span = method.sig.ident.span();
 
@@ -230,14 +230,14 @@ fn generate_method_call_creation(
         let params_struct_name = syn::Ident::new(
             &format!(
                 "{}Params",
-                snake_case_to_pascal_case(&method_name.to_string())
+                snake_case_to_pascal_case(&method_name.unraw().to_string())
             ),
             method_name.span(),
         );
         let wrapper_enum_name = syn::Ident::new(
             &format!(
                 "{}Wrapper",
-                snake_case_to_pascal_case(&method_name.to_string())
+                snake_case_to_pascal_case(&method_name.unraw().to_string())
             ),
             method_name.span(),
         );
@@ -269,7 +269,7 @@ fn generate_method_call_creation(
         let wrapper_enum_name = syn::Ident::new(
             &format!(
                 "{}Wrapper",
-                snake_case_to_pascal_case(&method_name.to_string())
+                snake_case_to_pascal_case(&method_name.unraw().to_string())
             ),
             method_name.span(),
         );
